@@ -6,6 +6,12 @@
 //	-mode api     G goroutines race first-use compilation of fresh reflect.StructOf types through sonic.Marshal / Unmarshal /
 //	              Pretouch / Valid / Get; prints one result line per call (order independent)
 //	-mode apiseq  the same calls, sequentially, in this (fresh) process: the oracle
+//	-mode pool    pool recycling: thousands of calls that FAIL inside nested documents (Unmarshal into several types, Valid, Get,
+//	              ast, stream decode) hand pooled decoder stacks / native state machines back; sequentially (each kind, probes after
+//	              it) and then from -g goroutines WHILE prober goroutines run the probes (valid decodes nested 1..100 deep,
+//	              ValidateString Marshal/Unmarshal of invalid UTF-8, Valid).  Prints, per probe, the set of distinct results seen.
+//	              -flood 0 is the oracle (same probes, fresh process, no failing calls).  Run WITHOUT -race as well: in race
+//	              builds sync.Pool drops a quarter of the Puts, which hides accumulating pool state.
 //
 // A data race reported by the race detector ends the process with exit status 66 (GORACE=exitcode=66).
 package main
@@ -40,6 +46,7 @@ var (
 	keys   = flag.Int("keys", 200, "cache: keys per round / api: fresh types")
 	calls  = flag.Int("calls", 40, "calls per goroutine")
 	outp   = flag.String("out", "/dev/stdout", "")
+	flood  = flag.Int("flood", 0, "pool: failing calls per kind / per goroutine (0: none, the oracle)")
 	tie    = flag.Int("tie", 0, "cache: the first N rounds are small and are also written as cases for the Coq model")
 	casesp = flag.String("cases", "", "cache: case file for the model (tie rounds)")
 	realp  = flag.String("real", "", "cache: schedule-independent observables of the real run (tie rounds)")
@@ -395,6 +402,115 @@ func apiMain(concurrent bool) {
 	f.Close()
 }
 
+type poolProbe struct {
+	op   string
+	n, k int
+	seed uint64
+}
+
+func (p poolProbe) run() string {
+	if p.op == "D" {
+		return c09t.DepthProbe(p.n, p.k)
+	}
+	return c09t.Utf8Probe(p.k, p.seed)
+}
+
+func (p poolProbe) String() string {
+	if p.op == "D" {
+		return fmt.Sprintf("decode/validate a valid document nested %d deep (shape %d)", p.n, p.k)
+	}
+	return fmt.Sprintf("utf8/valid probe kind %d input %d", p.k, p.seed)
+}
+
+func poolMain() {
+	r := rng.New(*seed ^ 0x9001)
+	var probes []poolProbe
+	for _, d := range []int{1, 2, 3, 5, 17, 50, 100, 1 + r.Intn(100), 1 + r.Intn(100)} {
+		for _, k := range []int{0, 1, 2, 3, 4, 5} {
+			if k == r.Intn(6) || d == 3 || d == 100 {
+				probes = append(probes, poolProbe{"D", d, k, 0})
+			}
+		}
+	}
+	for k := 0; k < 6; k++ {
+		for s := uint64(0); s < 7; s += 1 + r.U64()%3 {
+			probes = append(probes, poolProbe{"V", 0, k, s})
+		}
+	}
+	seen := make([]map[string]string, len(probes)) // result -> phase in which it was first seen
+	for i := range seen {
+		seen[i] = map[string]string{}
+	}
+	var mu sync.Mutex
+	runProbes := func(phase string) {
+		for i, p := range probes {
+			res := func() (res string) {
+				defer func() {
+					if v := recover(); v != nil {
+						res = fmt.Sprintf("PANIC:%v", v)
+					}
+				}()
+				return p.run()
+			}()
+			mu.Lock()
+			if _, ok := seen[i][res]; !ok {
+				seen[i][res] = phase
+			}
+			mu.Unlock()
+		}
+	}
+	runProbes("fresh")
+	if *flood > 0 {
+		// phase A: one goroutine, one kind of failing call after the other, probes in between
+		for kind := 0; kind < c09t.NFloodKinds; kind++ {
+			c09t.Flood(kind, *flood, 0, *seed+uint64(kind))
+			runProbes(fmt.Sprintf("after %d sequential failing calls: %s", *flood, c09t.FloodKindName[kind]))
+		}
+		// phase B: flooders and probers at the same time
+		var wg sync.WaitGroup
+		stop := make(chan struct{})
+		for w := 0; w < *gor; w++ {
+			wg.Add(1)
+			go func(w int) {
+				defer wg.Done()
+				c09t.Flood(7, *flood, 0, *seed+100+uint64(w))
+			}(w)
+		}
+		var pw sync.WaitGroup
+		for w := 0; w < 4; w++ {
+			pw.Add(1)
+			go func() {
+				defer pw.Done()
+				for {
+					select {
+					case <-stop:
+						return
+					default:
+						runProbes(fmt.Sprintf("while %d goroutines issue failing calls", *gor))
+					}
+				}
+			}()
+		}
+		wg.Wait()
+		close(stop)
+		pw.Wait()
+		runProbes("after the concurrent phase")
+	}
+	f, err := os.Create(*outp)
+	if err != nil {
+		panic(err)
+	}
+	for i, p := range probes {
+		var rs []string
+		for res, ph := range seen[i] {
+			rs = append(rs, res+" @ "+ph)
+		}
+		sort.Strings(rs)
+		fmt.Fprintf(f, "%d\t%s\t%s\n", i, p, strings.Join(rs, " || "))
+	}
+	f.Close()
+}
+
 func main() {
 	flag.Parse()
 	switch *mode {
@@ -404,6 +520,8 @@ func main() {
 		apiMain(true)
 	case "apiseq":
 		apiMain(false)
+	case "pool":
+		poolMain()
 	default:
 		os.Exit(2)
 	}
